@@ -197,7 +197,9 @@ class ConditionIdentifier(ConditionItem):
                 f"Detection '{ self.identifier }' not defined in detections",
                 source=source,
             )
-        return detection.postprocess(detections, self, source)
+        # Each reference gets a copy of the detection: the parent links set while postprocessing
+        # would otherwise be overwritten by the next reference to the same detection.
+        return copy.copy(detection).postprocess(detections, self, source)
 
 
 @dataclass
